@@ -503,7 +503,9 @@ LEVEL_TEXT = ("Storage is modelled as an arena of slots (dead, or live with the 
               "exactly the slots [0,size) (resp. the slot of the live alternative / stored callable) alive and every local dead, "
               "keeps #constructed = #destroyed + #alive, and that destroying the owners leaves nothing alive with #constructed = "
               "#destroyed; moved-from owners satisfy the same invariant; self copy-assignment and self-swap return the identical "
-              "slot contents. The model is tied to the current source on every run: an instrumented element type records every "
+              "slot contents. One operation is excluded and recorded as a known finding: the converting assignment of a variant "
+              "from its own live alternative destroys the alternative before copying from it (partial theorems + counterexample "
+              "theorem). The model is tied to the current source on every run: an instrumented element type records every "
               "special member call in an address registry (live / dead / moved-from / alternative) and the slot maps of both "
               "owners, the number of live locals and the cumulative count of each kind of call are compared with the model after "
               "every operation of exhaustive small-scope and random histories under ASan/UBSan.")
@@ -512,4 +514,19 @@ LEVEL_NOTE = ("Trusted: Lean kernel + propext/Classical.choice/Quot.sound; fidel
               "g++-12/ASan; the registry of the harness. Members in coverage.correspondence_only are modelled and compared on every "
               "run but have no theorem. pair/tuple hold their elements as data members: their lifetime is the language's and is not "
               "modelled.")
-CORRESPONDENCE_ONLY = []
+CORRESPONDENCE_ONLY = [
+    "stack<T, static_vector>: push / emplace / pop / swap / copy / move forward to the container; the harness runs the real "
+    "etl::stack, the model and the theorems are those of static_vector (the forwarding itself is tied by the correspondence run only)",
+    "optional<T> and expected<T, E> are run as the real types and modelled as the variant<nullopt_t, T> / variant<T, E> they are "
+    "implemented with (theorems hold for every number of alternatives and every set of instrumented alternatives); that the "
+    "wrappers add no event of their own is observed by the correspondence run",
+    "event ORDER inside one operation is not compared (slot maps, live locals and per-kind event counts after every operation are); "
+    "an order that is not lifetime-correct is reported by the registry of the element type itself",
+    "values: apart from self copy-assignment / self-swap (identical slot contents, proved) the theorems are about liveness, not about "
+    "which value ends up where; values are compared with the model and the spec on every run (value-level theorems: C01, C07, C09, C20)",
+    "not explored and not modelled: flat_set::replace, the sized / range / c_array constructors of static_vector and the range "
+    "constructor of static_set (they forward to emplace_n / insert, which are), converting constructors of variant / optional / "
+    "expected from a value, inplace_function construction from a function of another capacity, pair / tuple (members, language lifetime)",
+    "static_vector of move-only elements has no move assignment and no swap (operator=(static_vector&&) is constrained on "
+    "is_assignable<T&, T&>): those operations do not exist for the move-only kind and are absent from its histories",
+]
